@@ -1173,7 +1173,14 @@ pub fn gen_quiescent(seed: u64, nonacq: bool) -> Scenario {
             let api = *g.rng.pick(&apis);
             let nflat = w.flatten(&w.targets[t], None).len();
             let body = if nflat > 0 && g.rng.chance(1, 2) { vec![BodyOp::Read(g.rng.below(nflat))] } else { vec![] };
-            tester.push(Step::Acquire(Acq { target: t, rebuild: g.rng.chance(1, 4), api, lent_key: api.is_scoped() && g.rng.chance(1, 2), body, release: if g.rng.chance(1, 3) { Release::Unlock } else { Release::Drop }, mutate: false }));
+            let a = Acq { target: t, rebuild: g.rng.chance(1, 4), api, lent_key: api.is_scoped() && g.rng.chance(1, 2), body, release: if g.rng.chance(1, 3) { Release::Unlock } else { Release::Drop }, mutate: false };
+            if g.rng.chance(1, 10) {
+                // the attempt is made from a destructor while an unrelated panic unwinds: whether
+                // it succeeds depends on the locks alone
+                tester.push(Step::InUnwind(Box::new(Step::Acquire(a))));
+            } else {
+                tester.push(Step::Acquire(a));
+            }
         }
     }
     if nonacq && g.rng.chance(1, 4) {
